@@ -633,7 +633,7 @@ func ruleC07AddOrder(rule string) ruleFn {
 		snapAll := fRepl + "Snapshot($0.backend,util.UUID(),false,util.Now())"
 		snapNew := "invoke.Snapshot($1,util.UUID(),false,util.Now())"
 		c.Guard(rule, fn, sites, "admit replica", nil,
-			atom("canAdd(address)", fCtl+"canAdd($0,$2)#0"),
+			c.admitted(fn, "canAdd(address)", "$2"),
 			atom("snapshot not requested or taken on all existing replicas", "!$3", "+"+snapAll+" -nil ==0"),
 			atom("snapshot not requested or taken on the new replica", "!$3", "+"+snapNew+" -nil ==0"),
 			atom("new replica set to WO", `+invoke.SetReplicaMode($1,"WO") -nil ==0`))
@@ -690,20 +690,77 @@ func ruleCanAdd(rule string) ruleFn {
 		if fn == nil {
 			return
 		}
+		// the admitting returns: `return true, nil`, or — when canAdd reports only an error — the
+		// success returns
 		var sites []ssa.Instruction
-		for _, r := range Returns(fn) {
-			if cst, ok := strip(r.Results[0]).(*ssa.Const); ok && constString(cst) == "true" {
-				sites = append(sites, r)
-			} else if !ok {
-				c.Bad(rule, FnName(fn)+" | non-constant verdict", c.P.InstrPos(r), "canAdd returns a non-constant verdict", nil)
+		if boolResultIndex(fn) == 0 {
+			for _, r := range Returns(fn) {
+				if cst, ok := strip(r.Results[0]).(*ssa.Const); ok && constString(cst) == "true" {
+					sites = append(sites, r)
+				} else if !ok {
+					c.Bad(rule, FnName(fn)+" | non-constant verdict", c.P.InstrPos(r), "canAdd returns a non-constant verdict", nil)
+				}
+			}
+		} else {
+			sites = successReturns(fn)
+		}
+		if len(sites) == 0 {
+			c.Bad(rule, FnName(fn)+" | admitting return", c.P.Pos(fn.Pos()), "canAdd has no admitting return", nil)
+		}
+		R0 := NewRenderer(fn)
+		woAddr := fCtl + "hasWOReplica($0)#0"
+		noWO := Need{Atoms: []string{"!" + fCtl + "hasWOReplica($0)#1"}}
+		if c.P.Fn(fCtl+"hasWOReplica") == nil {
+			// the search for a WO replica written out in canAdd: "none" is the exhaustion edge of the
+			// loop that tests Mode == WO; the WO address is whatever is handed to hasGreaterRevisionCount,
+			// which must be a replicas[i].Address selected under Mode == WO
+			var header *ssa.BasicBlock
+			for _, ea := range allAtoms(fn, R0) {
+				if ea.Atom.String() == `+"WO" -$0.replicas[*].Mode ==0` {
+					if b := loopHeaderOf(ea.B); b != nil {
+						header = b
+					}
+				}
+			}
+			if header != nil {
+				done := func(b *ssa.BasicBlock, k int) bool { return b == header && k == 1 }
+				noWO = Need{Edge: orEdges(done, flagEdgesImplying(fn, done))}
+			}
+			for _, g := range CallsTo(fn, fCtl+"hasGreaterRevisionCount") {
+				arg := g.(*ssa.Call).Call.Args[1]
+				woAddr = R0.V(arg)
+				okSel := true
+				n := 0
+				if p, ok := strip(arg).(*ssa.Phi); ok {
+					for _, e := range allPhiEdges(p) {
+						if cst, ok := strip(e.val).(*ssa.Const); ok && constString(cst) == `""` {
+							continue
+						}
+						n++
+						if R0.V(e.val) != "$0.replicas[*].Address" {
+							okSel = false
+						}
+						site := e.from.Instrs[len(e.from.Instrs)-1]
+						if len(Query{Fn: fn, IsSite: func(in ssa.Instruction) bool { return in == site }, GenEdge: atomEdges(fn, R0, `+"WO" -$0.replicas[*].Mode ==0`)}.Run()) > 0 {
+							okSel = false
+						}
+					}
+				} else {
+					okSel = false
+				}
+				if okSel && n > 0 {
+					c.OK(rule, FnName(fn)+" | WO replica selected under Mode == WO", c.P.InstrPos(g), "address handed to hasGreaterRevisionCount is a replicas[i].Address chosen on the edge Mode == WO", true)
+				} else {
+					c.Bad(rule, FnName(fn)+" | WO replica selected under Mode == WO", c.P.InstrPos(g), "the address compared / removed is not that of a replica found in mode WO: "+woAddr, nil)
+				}
 			}
 		}
-		wo := fCtl + "hasWOReplica($0)"
+		rmNeed := Need{Desc: "no WO replica, or the WO replica was removed", Atoms: append([]string{"+" + fCtl + "RemoveReplicaNoLock($0," + woAddr + ") -nil ==0"}, noWO.Atoms...), Edge: noWO.Edge}
+		gtNeed := Need{Desc: "no WO replica, or newcomer has the greater revision", Atoms: append([]string{fCtl + "hasGreaterRevisionCount($0," + woAddr + ",$1)#0"}, noWO.Atoms...), Edge: noWO.Edge}
 		c.Guard(rule, fn, sites, "return true", nil,
 			atom("address not yet a member", "!"+fCtl+"hasReplica($0,$1)"),
 			atom("no snapshot deletion in progress", "!$0.IsSnapDeletionInProgress"),
-			atom("no WO replica, or the WO replica was removed", "!"+wo+"#1", "+"+fCtl+"RemoveReplicaNoLock($0,"+wo+"#0) -nil ==0"),
-			atom("no WO replica, or newcomer has the greater revision", "!"+wo+"#1", fCtl+"hasGreaterRevisionCount($0,"+wo+"#0,$1)#0"))
+			rmNeed, gtNeed)
 		// hasReplica scans both lists by address
 		if f := c.Anchor(rule, fCtl+"hasReplica"); f != nil {
 			var t []ssa.Instruction
@@ -726,7 +783,7 @@ func ruleCanAdd(rule string) ruleFn {
 			c.Guard(rule, f, tr, "return true", nil, atom("address equal", "+$0.replicas[*].Address -$1 ==0", "+$0.quorumReplicas[*].Address -$1 ==0"))
 		}
 		// hasWOReplica
-		if f := c.Anchor(rule, fCtl+"hasWOReplica"); f != nil {
+		if f := c.P.Fn(fCtl + "hasWOReplica"); f != nil { // optional: may be written out in canAdd
 			var t []ssa.Instruction
 			for _, r := range Returns(f) {
 				if cst, ok := strip(r.Results[1]).(*ssa.Const); ok && constString(cst) == "false" {
@@ -824,7 +881,7 @@ func ruleC18(c *Ctx) {
 		sites := CallsTo(fn, fCtl+"addReplicaNoLock")
 		c.Guard(rule, fn, sites, "admission", nil,
 			atom("replication factor not reached", "+"+fCtl+"verifyReplicationFactor($0) -nil ==0"),
-			atom("canAdd", fCtl+"canAdd($0,$1)#0"),
+			c.admitted(fn, "canAdd", "$1"),
 			atom("backend created", "+invoke.Create($0.factory,$1)#1 -nil ==0"))
 		c.Guard(rule, fn, sites, "admission", lockOrUnlock, needWLock("controller write lock (re)taken"))
 		// the replication-factor check must hold in the lock region of the admission itself
@@ -1530,3 +1587,34 @@ func ruleC19Promote(rule string) ruleFn {
 }
 
 var _ = types.Typ
+
+// loopHeaderOf: the header block of the innermost range/for loop that contains b (the nearest
+// block, walking predecessors, whose comment marks a loop head).
+func loopHeaderOf(b *ssa.BasicBlock) *ssa.BasicBlock {
+	seen := map[*ssa.BasicBlock]bool{}
+	work := []*ssa.BasicBlock{b}
+	for len(work) > 0 {
+		x := work[0]
+		work = work[1:]
+		if seen[x] {
+			continue
+		}
+		seen[x] = true
+		if x.Comment == "rangeindex.loop" || x.Comment == "rangeiter.loop" || x.Comment == "for.loop" {
+			return x
+		}
+		work = append(work, x.Preds...)
+	}
+	return nil
+}
+
+// admitted: "canAdd(addr) admitted the replica" as seen from a caller fn: the true edge of the
+// boolean verdict, or (when canAdd only reports an error) the success edge of the call.
+func (c *Ctx) admitted(fn *ssa.Function, desc, addr string) Need {
+	h := c.P.Fn(fCtl + "canAdd")
+	if h != nil && boolResultIndex(h) < 0 {
+		R := NewRenderer(fn)
+		return Need{Desc: desc, Edge: okOf(fn, R, fCtl+"canAdd", "($0,"+addr+")").Edge}
+	}
+	return atom(desc, fCtl+"canAdd($0,"+addr+")#0")
+}
